@@ -194,7 +194,7 @@ def _simple_chunk(params, lo, hi):
     for idx in range(lo, hi):
         ds = digits(idx, len(alpha), len(pairs))
         edges = [(pairs[i][0], pairs[i][1], alpha[d]) for i, d in enumerate(ds) if alpha[d] is not None]
-        run_graph(r, n, edges, labels=labels if idx % 2 else None)
+        run_graph(r, n, edges, labels=(MIXED if idx % 4 == 3 else labels) if idx % 2 else None)
         if len(r["violations"]) >= 40 or too_many_hangs():
             r["capped"] = True
             break
@@ -236,12 +236,13 @@ def _dup_chunk(params, lo, hi):
 
 A5 = (None, -1, 0, 1, 2)
 STR = ["a", "b", "c", "d", "e"]
+MIXED = [None, 0, "", (1,), 2.5]  # falsy / None / tuple / float labels
 
 
 def jobs(tier, seed):
     js = []
     for n in (1, 2, 3, 4):
-        js.append(Job(f"n{n}_over_absent-1012", 5 ** len(_pairs(n)), _simple_chunk, (n, A5, STR), describe="all graphs, per-pair weight in {absent,-1,0,1,2}; odd indices use string labels for prim"))
+        js.append(Job(f"n{n}_over_absent-1012", 5 ** len(_pairs(n)), _simple_chunk, (n, A5, STR), describe="all graphs, per-pair weight in {absent,-1,0,1,2}; odd indices use string labels (every 4th: None/falsy/tuple/float labels) for prim"))
     js.append(Job("n3_selfloops", 125 * 27, _loops_chunk, None, describe="3 nodes with optional self loops of weight -1/1"))
     for L in (1, 2, 3, 4):
         js.append(Job(f"n3_edgelists_len{L}", 18**L, _dup_chunk, (3, L, (1, 2, 5)), describe="ordered edge lists with duplicate/anti-parallel edges, weights {1,2,5}"))
